@@ -15,7 +15,11 @@ use std::sync::atomic::{AtomicBool, AtomicU64, Ordering};
 use std::sync::{Arc, Mutex};
 use std::time::Instant;
 
-pub const VERIF_DIR: &str = "/verif";
+pub const VERIF_DIR_DEFAULT: &str = "/verif";
+
+pub fn verif_dir() -> PathBuf {
+    PathBuf::from(std::env::var("VERIF_HOME").unwrap_or_else(|_| VERIF_DIR_DEFAULT.to_string()))
+}
 
 #[derive(Clone, Copy, Debug, PartialEq, Eq)]
 pub enum Tier {
@@ -158,7 +162,7 @@ pub struct Findings {
 }
 
 pub fn load_findings() -> Findings {
-    let p = Path::new(VERIF_DIR).join("known_findings.json");
+    let p = verif_dir().join("known_findings.json");
     match std::fs::read_to_string(&p) {
         Ok(s) => serde_json::from_str(&s).unwrap_or_else(|e| {
             eprintln!("harness: cannot parse {}: {e}", p.display());
@@ -619,7 +623,7 @@ pub struct PropertySpec {
 }
 
 fn write_replay(prop: &str, v: &ViolationReport) -> PathBuf {
-    let dir = Path::new(VERIF_DIR).join("replays");
+    let dir = verif_dir().join("replays");
     let _ = std::fs::create_dir_all(&dir);
     let name = format!("{}-{}-{:016x}.json", prop, v.stage, fp(&v.case.to_string()));
     let path = dir.join(name);
@@ -685,7 +689,7 @@ pub fn run_property(spec: PropertySpec, tier: Tier, seed: u64) -> i32 {
 
     // Replay tier: committed regression inputs.
     let mut corpus_n = 0u64;
-    let cdir = Path::new(VERIF_DIR).join("corpus").join(spec.id);
+    let cdir = verif_dir().join("corpus").join(spec.id);
     if let Ok(rd) = std::fs::read_dir(&cdir) {
         let mut files: Vec<_> = rd.filter_map(|e| e.ok()).map(|e| e.path()).collect();
         files.sort();
@@ -786,7 +790,7 @@ pub fn run_property(spec: PropertySpec, tier: Tier, seed: u64) -> i32 {
         "wall_s": t0.elapsed().as_secs_f64(),
         "violations": if violation.is_some() { 1 } else { 0 },
     });
-    let edir = Path::new(VERIF_DIR).join("evidence");
+    let edir = verif_dir().join("evidence");
     let _ = std::fs::create_dir_all(&edir);
     let epath = edir.join(format!("{}.json", spec.id));
     if let Err(e) = std::fs::write(&epath, serde_json::to_string_pretty(&ev).unwrap()) {
